@@ -17,6 +17,19 @@ from ..core import BOUNDARY, Ctx, Taps, guarded
 from ..gen import objects as O
 from ..oracles import geometry as G
 
+def _lib_of():
+    # library functions are called from the modules that define them (not through a name another module happens to import)
+    import perception_eval.evaluation.matching.objects_filter as m
+
+    return m
+
+
+def _lib_or():
+    import perception_eval.evaluation.result.object_result as m
+
+    return m
+
+
 LEVEL_TEXT = (
     "Held on every filter call executed under the monitor: filter_objects / filter_object_results (all aliases) and the "
     "per-object decision helper are tapped; the returned list must be the order-preserving sub-list selected by a predicate "
@@ -401,31 +414,31 @@ def run(ctx: Ctx) -> None:
                     kw = dict(p)
                     if is_gt and c["uuids"] is not None:
                         kw["target_uuids"] = c["uuids"]
-                    out = mgr_mod.filter_objects(objs, is_gt, **kw)
-                    again = mgr_mod.filter_objects(out, is_gt, **kw)
+                    out = _lib_of().filter_objects(objs, is_gt, **kw)
+                    again = _lib_of().filter_objects(out, is_gt, **kw)
                     ctx.count("C10.idempotence_checked")
                     ctx.check(len(again) == len(out) and all(a is b for a, b in zip(again, out)), "C10/filter_not_idempotent", dict(is_gt=is_gt, n1=len(out), n2=len(again)), "filter_objects")
                     q = widen(r, kw)
                     if q is not None:
-                        wide_out = mgr_mod.filter_objects(objs, is_gt, **q)
+                        wide_out = _lib_of().filter_objects(objs, is_gt, **q)
                         ctx.count("C10.monotonicity_checked")
                         ids = {id(o) for o in wide_out}
                         # objects undecided at the narrow bound are excluded by construction of the widening step (>= 0.2)
                         ctx.check(all(id(o) in ids for o in out), "C10/widening_a_bound_removes_an_object", dict(is_gt=is_gt, narrow=len(out), wide=len(wide_out), changed=[k for k in q if q[k] is not kw.get(k)]), "filter_objects")
                 # results
-                res = mgr_mod.get_object_results(EvaluationTask.DETECTION, c["ests"], c["gts"], target_labels=p["target_labels"], transforms=p.get("transforms") or (O.transforms_for((0, 0, 0), 0.0) if c["frame"] == "map" else None))
+                res = _lib_or().get_object_results(EvaluationTask.DETECTION, c["ests"], c["gts"], target_labels=p["target_labels"], transforms=p.get("transforms") or (O.transforms_for((0, 0, 0), 0.0) if c["frame"] == "map" else None))
                 if r.random() < 0.5:
                     r.shuffle(res)  # any order (concatenated frames, confidence-sorted lists): the sub-list keeps it
                 kw = dict(p)
                 if c["uuids"] is not None and r.random() < 0.5:
                     kw["target_uuids"] = c["uuids"]
-                out = mgr_mod.filter_object_results(res, **kw)
-                again = mgr_mod.filter_object_results(out, **kw)
+                out = _lib_of().filter_object_results(res, **kw)
+                again = _lib_of().filter_object_results(out, **kw)
                 ctx.count("C10.idempotence_checked")
                 ctx.check(len(again) == len(out) and all(a is b for a, b in zip(again, out)), "C10/filter_not_idempotent", dict(fn="filter_object_results", n1=len(out), n2=len(again)), "filter_object_results")
                 q = widen(r, kw)
                 if q is not None:
-                    wide_out = mgr_mod.filter_object_results(res, **q)
+                    wide_out = _lib_of().filter_object_results(res, **q)
                     ctx.count("C10.monotonicity_checked")
                     ids = {id(o) for o in wide_out}
                     ctx.check(all(id(o) in ids for o in out), "C10/widening_a_bound_removes_an_object", dict(fn="filter_object_results", narrow=len(out), wide=len(wide_out)), "filter_object_results")
@@ -483,7 +496,7 @@ def run(ctx: Ctx) -> None:
                         kw["max_x_position_list"] = [round(r.uniform(20, 90), 1) for _ in labels]
                         kw["max_y_position_list"] = [round(r.uniform(20, 90), 1) for _ in labels]
                     ctx.count("C10.positioned_2d_cases")
-                out2d = mgr_mod.filter_objects(objs, is_gt, **kw)
+                out2d = _lib_of().filter_objects(objs, is_gt, **kw)
                 if "transforms" in kw:
                     ctx.count("C10.positioned_2d_removed_by_range", sum(1 for o in objs if o.state.position is not None) - sum(1 for o in out2d if o.state.position is not None))
         run_manager_scenarios(ctx, "scenario", 30 if ctx.quick else 2000)
